@@ -283,6 +283,9 @@ func (m *fStompSubscriberTransport) Unsubscribe() error {
 // subscription channel.
 func (m *fStompSubscriberTransport) processMessages() {
 	stopC := m.stopC
+	// Unsubscribe clears m.callback while messages may still be buffered in
+	// the subscription channel: keep our own reference.
+	callback := m.callback
 	for {
 		select {
 		case <-stopC:
@@ -301,7 +304,7 @@ func (m *fStompSubscriberTransport) processMessages() {
 			}
 
 			transport := &thrift.TMemoryBuffer{Buffer: bytes.NewBuffer(message.Body[4:])}
-			if err := m.callback(transport); err != nil {
+			if err := callback(transport); err != nil {
 				logger().Warn("frugal: error executing callback: ", err)
 				continue
 			}
